@@ -9,8 +9,8 @@
    nb_of_processes = 1, for a seed option, a clock value t, a mode (fixed-date with nb dates and
    dimension d, or jump-time), and an explicit schedule (fresh draws of every sample; level/pass
    history); `consumed` = all positions used by the samples, in order. *)
-From Coq Require Import ZArith List Bool.
-From RV Require Import Model.Rng Model.RngSim Proofs.C08_Rng Proofs.C08_Sim.
+From Coq Require Import ZArith List Bool Lia.
+From RV Require Import Model.Rng Model.RngSim Model.RngMlPool Proofs.C08_Rng Proofs.C08_Sim Proofs.C08_MlPool.
 Import ListNotations.
 Open Scope Z_scope.
 
@@ -191,26 +191,33 @@ Theorem C08_std_derived_orig_refuted :
     std_derived_orig val nxt fuel (Some s) t m n g1 <> std_derived_orig val nxt fuel (Some s) t m n g2.
 Proof. exact std_derived_orig_refuted. Qed.
 
-(* ---- wave 5: the jump-time simulators (SimulationWithJumpTimes, the four *MaximumStep simulators, the SDE processes,
-   the series representation: nothing pre-drawn, Model/RngSim.v).  nb_of_processes = 1, all three entry points, every
-   schedule and level/pass history: the list of variates DRAWN from the generators during the run (numpy and Python
-   streams) IS the list of variates consumed by the samples, and it has no repetition: every variate drawn is consumed
-   exactly once, by exactly one sample; none is drawn between two samples or thrown away.  (In fixed-date mode this is
-   false for the adaptive price(): C08_adaptive_price_exactly_once_refuted.) *)
-Theorem C08_jump_mode_exactly_once : forall seed t nb d g,
-  let m := mkMode false nb d in
+(* ---- wave 5 (restated in wave 6 after audit4 B2): the jump-time simulators (SimulationWithJumpTimes, the four
+   *MaximumStep simulators, the SDE processes, the series representation: nothing pre-drawn, Model/RngSim.v).
+   nb_of_processes = 1, all three entry points, every schedule and level/pass history, every mode with m_fixed = false:
+   NO VARIATE IS DRAWN OUTSIDE A SAMPLE WINDOW (the list of variates drawn during the run is the concatenation of the
+   samples' position lists: nothing is drawn by pre_computation, between two samples or after the last) and NO POSITION
+   IS ATTRIBUTED TO TWO SAMPLES or twice to one (NoDup).  In the model and in the tracer a sample's positions are by
+   definition the draws made between its begin and end, so this does NOT say that every variate drawn inside a window
+   is used by the path.  The statement has content: it is false in fixed-date mode
+   (C08_fixed_mode_draws_outside_samples_refuted; for the adaptive price() some of those rows are never consumed at all:
+   C08_adaptive_price_exactly_once_refuted). *)
+Theorem C08_jump_mode_no_draw_outside_samples : forall seed t m g, m_fixed m = false ->
   (forall ss, drawn (events (std_ops seed t m ss) (init g)) = consumed (std_ops seed t m ss) (init g)
               /\ NoDup (drawn (events (std_ops seed t m ss) (init g))))
   /\ (forall n0 lv, drawn (events (mlc_ops seed t m n0 lv) (init g)) = consumed (mlc_ops seed t m n0 lv) (init g)
               /\ NoDup (drawn (events (mlc_ops seed t m n0 lv) (init g))))
   /\ (forall n0 ps, drawn (events (mlp_ops seed t m n0 ps) (init g)) = consumed (mlp_ops seed t m n0 ps) (init g)
               /\ NoDup (drawn (events (mlp_ops seed t m n0 ps) (init g)))).
-Proof. exact jump_mode_exactly_once. Qed.
+Proof. exact jump_mode_no_draw_outside_samples. Qed.
+Theorem C08_fixed_mode_draws_outside_samples_refuted :
+  exists seed t m ss g, m_fixed m = true /\ exists p, In p (drawn (events (std_ops seed t m ss) (init g)))
+                                           /\ drawn (events (std_ops seed t m ss) (init g)) <> consumed (std_ops seed t m ss) (init g).
+Proof. exact fixed_mode_draws_outside_samples_refuted. Qed.
 
 (* the standard engine on LevyCopula2dSeriesRepresentation, schedule = series_sched of the data of every sample
    (N1, N2 = the two Poisson variates, (a_k, b_k) = thinning draws per product interval, nb = number of intervals;
-   series_wf: every arrival lies in exactly one interval): the run is disciplined (clauses (1)-(5) above), drawn =
-   consumed, and sample i consumes exactly 2 + 3 (N1 + N2) + max (N1, N2) + 2 nb variates *)
+   series_wf: every arrival lies in exactly one interval): the run is disciplined (clauses (1)-(5) above), nothing is
+   drawn outside a sample window, and sample i consumes exactly 2 + 3 (N1 + N2) + max (N1, N2) + 2 nb variates *)
 Theorem C08_series_run_exactly_once : forall seed t ds g, Forall series_wf ds ->
   let ops := series_ops seed t ds in
   disciplined ops (init g) (seed_choice seed false t)
@@ -260,6 +267,69 @@ Example C08_nonvacuous_sim :
   /\ map (fun s : sample => existsb (fun p : pos => Z.eqb (snd p) 0 && Z.eqb (snd (fst p)) (-1)) (snd s)) (snd pool_witness) = [true; true].
 Proof. vm_compute. repeat split. Qed.
 
+(* ---- wave 6: the multilevel engine with worker pools (multilevel/engine.py with nb_of_processes <> 1, Model/RngMlPool.v):
+   the parent never seeds and never simulates; compute_level_l builds one pool per level and pass (fresh workers seeded
+   seed_of pid now, every chunk starts from a copy of the deques of the level's process as the parent holds them).
+   mlcp_ops = price_with_constant_mc_paths_and_level, mlpp_ops = adaptive price(); a run is described by the list of its
+   pools (pids, clock value, chunks = (worker, samples) in the order served), per level / per pass and level.
+   Jump-time mode, both entry points, every number of levels / pass history (levels added or not), every chunking and
+   assignment of chunks to workers in every pool, every ambient parent state: if the (pid, clock) pairs of all workers of
+   the run are pairwise different, all samples -- across chunks, workers, levels and passes -- use pairwise disjoint
+   positions.  (NoDup of the keys is the hypothesis about the OS of C08_pools_jump_mode_disjoint.) *)
+Theorem C08_mlpool_jump_mode_disjoint : forall nb d n0 g0,
+  (forall pools, NoDup (pools_keys pools) -> Forall pool_ok pools ->
+     NoDup (flat_map snd (psamples (mkMode false nb d) (mlcp_ops (mkMode false nb d) n0 pools) (init g0))))
+  /\ (forall passes, NoDup (pools_keys (flat_map pp_levels passes)) -> Forall pool_ok (flat_map pp_levels passes) ->
+     NoDup (flat_map snd (psamples (mkMode false nb d) (mlpp_ops (mkMode false nb d) n0 passes) (init g0)))).
+Proof. exact mlpool_jump_mode_disjoint. Qed.
+
+(* the same for ANY interleaving of parent instructions and pools (any slots, any levels, any parent state), as long as
+   the parent itself simulates no sample: the disjointness does not depend on the engine's control flow *)
+Theorem C08_mlpool_jump_mode_disjoint_any_order : forall nb d ops st, forallb par_quiet ops = true ->
+  NoDup (pools_keys (pools_of ops)) -> Forall pool_ok (pools_of ops) ->
+  NoDup (flat_map snd (psamples (mkMode false nb d) ops st)).
+Proof. exact mlpool_jump_disjoint_gen. Qed.
+
+(* ---- refuted on the delivered tree: F-C08-3 lifted to the multilevel engine, for ALL schedules.  Fixed-date mode with
+   at least one product date: in the constant run (n0 >= 1 paths per level) and in the adaptive price() (any pass
+   history), as soon as ONE pool of the run -- any level, any pass -- serves two non-empty chunks (any workers, pids,
+   clock values; anything before, between, after), two different samples OF THE SAME LEVEL consume the same pre-drawn
+   variate (Shared: the first Poisson count of the first row of that level's deque), so NoDup fails *)
+Theorem C08_mlpool_fixed_mode_share_refuted : forall nb d n0 g0, 1 <= nb ->
+  (forall pools, 1 <= n0 -> Exists two_chunks pools ->
+     Shared (psamples (mkMode true nb d) (mlcp_ops (mkMode true nb d) n0 pools) (init g0))
+     /\ ~ NoDup (flat_map snd (psamples (mkMode true nb d) (mlcp_ops (mkMode true nb d) n0 pools) (init g0))))
+  /\ (forall passes, Exists two_chunks (flat_map pp_levels passes) ->
+     Shared (psamples (mkMode true nb d) (mlpp_ops (mkMode true nb d) n0 passes) (init g0))
+     /\ ~ NoDup (flat_map snd (psamples (mkMode true nb d) (mlpp_ops (mkMode true nb d) n0 passes) (init g0)))).
+Proof. exact mlpool_fixed_mode_share. Qed.
+
+(* non-vacuity of the wave-6 theorems: mlpool_demo (two levels, two workers each) meets every hypothesis (two non-empty
+   chunks per pool, pairwise different (pid, clock) keys, clock < 2^32, worker numbers in range); its samples in
+   jump-time mode (level :: positions; seed ids seed_of pid now) and in fixed-date mode, where both samples of level 0
+   consume position 0 of the parent's ambient stream (the first Poisson count) and the three of level 1 position 4 *)
+Example C08_nonvacuous_mlpool :
+  Forall two_chunks mlpool_demo /\ NoDup (pools_keys mlpool_demo) /\ Forall pool_ok mlpool_demo
+  /\ seed_of 101 1700000000 = 435491696896
+  /\ map enc_sample (psamples jump (mlcp_ops jump 2 mlpool_demo) (init (mkGen (-1) 0 0)))
+     = [[0; 0; 435491696896; 0]; [0; 0; 439786664192; 0; 0; 439786664192; 1]; [1; 0; 448376598784; 0]; [1; 0; 444081631488; 0]; [1]]
+  /\ map enc_sample (psamples fixed1 (mlcp_ops fixed1 2 mlpool_demo) (init (mkGen (-1) 0 0)))
+     = [[0; 0; -1; 0; 0; 435491696896; 0; 0; -1; 2]; [0; 0; -1; 0; 0; 439786664192; 0; 0; 439786664192; 1; 0; -1; 2];
+        [1; 0; -1; 4; 0; 448376598784; 0; 0; -1; 6]; [1; 0; -1; 4; 0; 444081631488; 0; 0; -1; 6]; [1; 0; -1; 4; 0; -1; 6]]
+  /\ map enc_sample (psamples fixed1 (mlpp_ops fixed1 2 [mkPPass mlpool_demo (Some 1); mkPPass [([105], 1700000001, [(0%nat, [[]])])] None])
+                       (init (mkGen (-1) 0 0)))
+     = [[0; 0; -1; 4; 0; 435491696896; 0; 0; -1; 6]; [0; 0; -1; 4; 0; 439786664192; 0; 0; 439786664192; 1; 0; -1; 6];
+        [1; 0; -1; 8; 0; 448376598784; 0; 0; -1; 11]; [1; 0; -1; 8; 0; 444081631488; 0; 0; -1; 11]; [1; 0; -1; 8; 0; -1; 11];
+        [0; 0; -1; 16; 0; -1; 17]].
+Proof.
+  split; [|split; [|split; [|vm_compute; repeat split]]].
+  - repeat constructor.
+    + exists [], 0%nat, [(false, 1, false)], [], [], 1%nat, [(false, 2, false)], [], []. reflexivity.
+    + exists [], 1%nat, [(false, 1, true)], [], [], 0%nat, [(false, 1, false)], [], [(1%nat, [[]])]. reflexivity.
+  - vm_compute. repeat constructor; simpl; intuition congruence.
+  - repeat constructor; simpl; lia.
+Qed.
+
 Print Assumptions C08_single_process_disjoint.
 Print Assumptions C08_samples_pairwise_disjoint.
 Print Assumptions C08_rows_exactly_once.
@@ -283,8 +353,13 @@ Print Assumptions C08_adaptive_price_exactly_once_refuted.
 Print Assumptions C08_worker_seed_collision_exact.
 Print Assumptions C08_worker_seeds_collide_refuted.
 Print Assumptions C08_std_derived_orig_refuted.
-Print Assumptions C08_jump_mode_exactly_once.
+Print Assumptions C08_jump_mode_no_draw_outside_samples.
+Print Assumptions C08_fixed_mode_draws_outside_samples_refuted.
 Print Assumptions C08_series_run_exactly_once.
 Print Assumptions C08_pool_fixed_mode_chunks_share_refuted.
 Print Assumptions C08_nonvacuous.
 Print Assumptions C08_nonvacuous_sim.
+Print Assumptions C08_mlpool_jump_mode_disjoint.
+Print Assumptions C08_mlpool_jump_mode_disjoint_any_order.
+Print Assumptions C08_mlpool_fixed_mode_share_refuted.
+Print Assumptions C08_nonvacuous_mlpool.
